@@ -1,3 +1,4 @@
+import DigModel.Proofs.TagGrammar
 import DigModel.Proofs.Parse
 import DigModel.Proofs.Rollback
 import DigModel.Proofs.GhBoundApi
@@ -106,6 +107,17 @@ theorem C14_resolver_no_panic (ctx : Ctx) (st : St) (h : SafeInv ctx.env st) (fu
 theorem C14_check_no_panic (env : TyEnv) (st : St) (h : SafeInv env st) (s : Nat) :
     checkAcyclic st s ≠ .outOfRange ∧ checkAcyclic st s ≠ .fuel := checkAcyclic_total h.ob s
 
+
+/-- **the boolean struct tags** `optional` and `ignore-unexported`: an absent tag means false, the twelve spellings of
+    `strconv.ParseBool` are accepted, every other value is an invalid-input error — never a panic, never a guess -/
+theorem C14_bool_tag_grammar (tag : String) :
+    boolTag tag =
+      if tag = "" then .ok false
+      else if tag ∈ ["1", "t", "T", "TRUE", "true", "True"] then .ok true
+      else if tag ∈ ["0", "f", "F", "FALSE", "false", "False"] then .ok false
+      else .error .invalid0 := boolTag_spec tag
+
+#print axioms C14_bool_tag_grammar
 #print axioms C14_never_panics
 #print axioms C14_reachable_safe
 #print axioms C14_resolver_no_panic
